@@ -144,7 +144,7 @@ def run_wb2native(c):
     r = random.Random(c["seed"])
     wbw, pw = c["wbw"], c["pw"]
     wbb, pb = wbw // 8, pw // 8
-    aw_port = 14
+    aw_port = r.choice([14, 14, 24])
     ratio_n = pw // wbw if pw > wbw else 1
     aw_wb = 30
 
